@@ -100,8 +100,12 @@ def realise_plan(plan, files_by_url):
             if p in files:
                 data, mtime = files[p]
                 good = sim.Resp("ok", announced=len(data), date=mtime, body=data, chunks=64)
-            o[p] = {"first": [bad_resp(k, good) if k != "good" else "good" for k in sc["first"]],
-                    "rest": "good" if sc["rest"] == "good" else bad_resp(sc["rest"], good)}
+            # release flavours carry no declared size: a body of another length without an announced
+            # length is simply other content, not a fault of the statement's alphabet -> use an abort
+            sizeless = p.rsplit("/", 1)[-1] in ("InRelease", "Release", "Release.gpg")
+            fix = (lambda k: "abort" if sizeless and k in ("short", "half", "long") else k)
+            o[p] = {"first": [bad_resp(fix(k), good) if k != "good" else "good" for k in sc["first"]],
+                    "rest": "good" if sc["rest"] == "good" else bad_resp(fix(sc["rest"]), good)}
         out[url] = o
     return out
 
